@@ -57,3 +57,8 @@ pub assume_specification[ usize::overflowing_add ](a: usize, b: usize) -> (r: (u
     ensures r.0 as int == (a + b) % (usize::MAX as int + 1), r.1 == (a + b > usize::MAX);
 pub assume_specification<T>[ Option::<T>::replace ](o: &mut Option<T>, value: T) -> (r: Option<T>)
     ensures r == *old(o), *final(o) == Some(value);
+// String::len (byte length; an uninterpreted function of the string) -- usable in spec position too, so that an auto-pulled
+// helper (R39) whose body calls it can be read as a spec expression
+pub uninterp spec fn string_byte_len(s: &String) -> usize;
+#[verifier::when_used_as_spec(string_byte_len)]
+pub assume_specification[ String::len ](s: &String) -> (r: usize) ensures r == string_byte_len(s);
